@@ -29,12 +29,12 @@ def run_children(R, hexe, cases, out, watchdog_ms=5000):
     while start < ncases and guard < 200:
         guard += 1
         env = vlib.goenv()
-        env.update(VERIF_SCHEMAS=os.path.join(R.work, "schemas.json"), VERIF_CASES=cases, VERIF_OUT=out,
+        env.update(VERIF_SCHEMAS=os.path.join(cc.rundir(R), "schemas.json"), VERIF_CASES=cases, VERIF_OUT=out,
                    VERIF_START=str(start), VERIF_WATCHDOG_MS=str(watchdog_ms), GOMEMLIMIT="off", GOTRACEBACK="single")
         def limit():
             resource.setrlimit(resource.RLIMIT_AS, (AS_LIMIT, AS_LIMIT))
         try:
-            p = subprocess.run([hexe, "-test.run", "^TestChild$", "-test.count=1", "-test.timeout=0"], env=env, cwd=R.work,
+            p = subprocess.run([hexe, "-test.run", "^TestChild$", "-test.count=1", "-test.timeout=0"], env=env, cwd=cc.rundir(R),
                                preexec_fn=limit, stdout=subprocess.PIPE, stderr=subprocess.STDOUT, timeout=1800, text=True, errors="replace")
             rc, o = p.returncode, p.stdout
         except subprocess.TimeoutExpired as e:
@@ -84,7 +84,7 @@ def run(R):
         return R.finish()
     rexe, hexe = b
     # ---- case files: corpus first, then generated ----
-    cases = os.path.join(R.work, "cases")
+    cases = os.path.join(cc.rundir(R), "cases")
     with open(cases, "w") as f:
         cdir = os.path.join(vlib.VERIF, "corpus", "C04")
         ncorpus = 0
@@ -93,14 +93,14 @@ def run(R):
                 for l in open(os.path.join(cdir, fn)):
                     if l.strip() and not l.startswith("#"):
                         f.write(l.strip() + "\n"); ncorpus += 1
-    gen = os.path.join(R.work, "cases-gen")
+    gen = os.path.join(cc.rundir(R), "cases-gen")
     n = 1 if R.quick else 6
     rc, o = cc.run_harness(R, hexe, "TestMutGen", gen, dict(VERIF_N=str(n), VERIF_FULL="0" if R.quick else "1"), timeout=1200)
     if rc != 0:
         R.proof_problems.append("mutation generator failed: " + o[-400:]); return R.finish()
     with open(cases, "a") as f:
         f.write(open(gen).read())
-    out = os.path.join(R.work, "child-out")
+    out = os.path.join(cc.rundir(R), "child-out")
     failures, ncases = run_children(R, hexe, cases, out)
     case_lines = open(cases).read().split("\n")
     R.log("child: %d cases (%d from corpus), %d hard failures" % (ncases, ncorpus, len(failures)))
@@ -127,7 +127,7 @@ def run(R):
             dlines.append("D %s %s %s %s %s %s - - %s" % (f[1], f[2], f[3], f[4], f[5], kind if kind in ("timeout", "oom") else "panic", f[6]))
         else:
             hr.append("HR %s %s %s %s %s" % (f[1], f[2], f[3], kind, f[4]))
-    trace = os.path.join(R.work, "trace")
+    trace = os.path.join(cc.rundir(R), "trace")
     open(trace, "w").write("\n".join(dlines) + "\n")
     rc, rout, lines = cc.run_runner(R, rexe, trace, timeout=3000)
     if "DONE" not in rout:
